@@ -417,6 +417,8 @@ def _atom_text(atom):
     if "name" in atom:
         return "[#%s]" % atom["name"]
     if atom["arom"]:
+        if atom.get("hwrite"):
+            return "[%sH]" % atom["el"].lower()
         return atom["el"].lower()
     if atom["el"] == "H":
         return "[H%s]" % ((";%s" if atom.get("wpos", True) else ";w=%s") % atom["w"])
